@@ -19,6 +19,12 @@ theorem Fine.step {α : Type} {b b' n : Nat} {r : Res α} (h : Fine b n r) (hb :
   | panic m => exact h
   | nofuel => simp only [Fine] at h ⊢; omega
 
+theorem Fine.ite {α : Type} {b n : Nat} {c : Prop} [Decidable c] {x y : Res α}
+    (hx : Fine b n x) (hy : Fine b n y) : Fine b n (if c then x else y) := by
+  by_cases h : c
+  · rw [if_pos h]; exact hx
+  · rw [if_neg h]; exact hy
+
 theorem loop1_fine (atoi : List UInt8 → Int × Err) (from_ : List UInt8)
     (hl : lenI from_ ≤ 9223372036854775807) (rep : Int) :
     ∀ (fuel : Nat) (years months days duration : Int) (err : Err) (i start : Int) (ipt : Bool) (tmp : Int),
@@ -45,9 +51,316 @@ theorem loop1_fine (atoi : List UInt8 → Int × Err) (from_ : List UInt8)
         exact (ih y m d du e (i + 1) s p t hs0 hs1 (by omega)).step (by omega)
       have hlt' : decide (i < lenI from_) = true := by simpa using hlt
       simp only [hlt', hidx, hsl, hw, Bool.not_true, Bool.false_eq_true, ↓reduceIte]
-      split
-      all_goals first | exact True.intro | (apply step <;> omega)
+      repeat' first
+        | exact True.intro
+        | (apply step <;> omega)
+        | apply Fine.ite
     · simp only [hlt, decide_false, Bool.false_eq_true, ↓reduceIte]
       exact True.intro
+
+/-- What a run of the scan loop after a leading 'R' may be: it ends by `break` at some `j` with
+`i < j ≤ l`; never returns from inside, never panics; out of fuel only if `fuel < l - i`. -/
+def Scan {ρ : Type} (l i : Int) (fuel : Nat) : Res (LoopOut ρ Int) → Prop
+  | .ok (.brk j) => i < j ∧ j ≤ l
+  | .ok (.ret _) => False
+  | .panic _ => False
+  | .nofuel => fuel < (l - i).toNat
+
+theorem loop2_scan (atoi : List UInt8 → Int × Err) (from_ : List UInt8)
+    (hl : lenI from_ ≤ 9223372036854775807) (years months days duration rep : Int) (err : Err) :
+    ∀ (fuel : Nat) (i : Int), 0 ≤ i → i < lenI from_ →
+      Scan (lenI from_) i fuel
+        (ParseISO8601Duration_loop2 fuel atoi from_ years months days duration rep err (lenI from_) i) := by
+  intro fuel
+  induction fuel with
+  | zero =>
+    intro i h0 h1
+    unfold ParseISO8601Duration_loop2
+    show 0 < (lenI from_ - i).toNat
+    omega
+  | succ n ih =>
+    intro i h0 h1
+    unfold ParseISO8601Duration_loop2
+    have hw : wrapI64 (i + 1) = i + 1 := wrapI64_of_in (by unfold InI64; omega)
+    simp only [hw]
+    by_cases he : i + 1 = lenI from_
+    · have he' : (i + 1 == lenI from_) = true := by simpa using he
+      simp only [he', Bool.not_true, Bool.not_false, Bool.true_or, Bool.false_eq_true, ↓reduceIte]
+      show i < i + 1 ∧ i + 1 ≤ lenI from_
+      omega
+    · have he' : (i + 1 == lenI from_) = false := by simpa using he
+      have hidx : decide (0 ≤ i + 1 ∧ i + 1 < lenI from_) = true := by simp; omega
+      simp only [he', hidx, Bool.not_true, Bool.not_false, Bool.or_true, Bool.false_or, Bool.false_eq_true, ↓reduceIte]
+      split
+      · show i < i + 1 ∧ i + 1 ≤ lenI from_
+        omega
+      · have := ih (i + 1) (by omega) (by omega)
+        revert this
+        generalize ParseISO8601Duration_loop2 n atoi from_ years months days duration rep err (lenI from_) (i + 1) = r
+        intro hr
+        match r, hr with
+        | .ok (.brk j), hr => simp only [Scan] at hr ⊢; omega
+        | .nofuel, hr => simp only [Scan] at hr ⊢; omega
+
+abbrev R6 := Int × Int × Int × Int × Int × Err
+
+/-- The continuation `k2` of the translated function (from `if from[i] != 'P'` to the end), as a
+function of its own; `parseISO_code_unfold` below shows (by `rfl`) that the translated function is
+built from it. -/
+def body (fuel : Nat) (atoi : List UInt8 → Int × Err) (from_ : List UInt8) (rep : Int) (err : Err) (i : Int) :
+    Res R6 :=
+  if !(decide (0 ≤ i ∧ i < lenI from_)) then .panic "index out of range: from[i]" else
+  if (idx from_ i != (80 : UInt8)) then .ok (0, 0, 0, 0, rep, some "errors.New") else
+  match ParseISO8601Duration_loop1 fuel atoi from_ 0 0 0 0 rep err (lenI from_) (wrapI64 (i + 1)) (wrapI64 (i + 1)) false 0 with
+  | .panic m => .panic m
+  | .nofuel => .nofuel
+  | .ok (.ret r) => .ok r
+  | .ok (.brk (years, months, days, duration, err, _, _, _, _)) => .ok (years, months, days, duration, rep, err)
+
+/-- What follows the scan loop, given where it stopped. -/
+def afterScan (fuel : Nat) (atoi : List UInt8 → Int × Err) (from_ : List UInt8) (i : Int) : Res R6 :=
+  if (decide ((wrapI64 (i - (1 : Int))) < (1 : Int))) then .ok (0, 0, 0, 0, -1, some "errors.New") else
+  if !(decide (0 ≤ (1 : Int) ∧ (1 : Int) ≤ i ∧ i ≤ lenI from_)) then .panic "slice bounds out of range: from[1:i]" else
+  if ((atoi (slice from_ 1 i)).2 != none) then .ok (0, 0, 0, 0, (atoi (slice from_ 1 i)).1, some "errors.New") else
+  if (decide (wrapI64 (i + 1) ≥ lenI from_)) then .ok (0, 0, 0, 0, (atoi (slice from_ 1 i)).1, (atoi (slice from_ 1 i)).2) else
+  body fuel atoi from_ (atoi (slice from_ 1 i)).1 (atoi (slice from_ 1 i)).2 (wrapI64 (i + 1))
+
+theorem parseISO_code_unfold (fuel : Nat) (atoi : List UInt8 → Int × Err) (from_ : List UInt8) :
+    ParseISO8601Duration fuel atoi from_ =
+      if (decide (lenI from_ < 2)) then .ok (0, 0, 0, 0, -1, some "errors.New") else
+      if !(decide (0 ≤ (0 : Int) ∧ (0 : Int) < lenI from_)) then .panic "index out of range: from[0]" else
+      if (idx from_ 0 == (82 : UInt8)) then
+        match ParseISO8601Duration_loop2 fuel atoi from_ 0 0 0 0 (-1) none (lenI from_) 0 with
+        | .panic m => .panic m
+        | .nofuel => .nofuel
+        | .ok (.ret r) => .ok r
+        | .ok (.brk i) => afterScan fuel atoi from_ i
+      else body fuel atoi from_ (-1) none 0 := by
+  rfl
+
+theorem body_fine (fuel : Nat) (atoi : List UInt8 → Int × Err) (from_ : List UInt8) (rep : Int) (err : Err)
+    (i : Int) (hl : lenI from_ ≤ 9223372036854775807) (h0 : 0 ≤ i) (h1 : i < lenI from_) :
+    Fine (lenI from_ - (i + 1)).toNat fuel (body fuel atoi from_ rep err i) := by
+  unfold body
+  have hw : wrapI64 (i + 1) = i + 1 := wrapI64_of_in (by unfold InI64; omega)
+  have hidx : decide (0 ≤ i ∧ i < lenI from_) = true := by simp; omega
+  simp only [hw, hidx, Bool.not_true, Bool.false_eq_true, ↓reduceIte]
+  apply Fine.ite
+  · exact True.intro
+  · have := loop1_fine atoi from_ hl rep fuel 0 0 0 0 err (i + 1) (i + 1) false 0 (by omega) (by omega) (by omega)
+    revert this
+    generalize ParseISO8601Duration_loop1 fuel atoi from_ 0 0 0 0 rep err (lenI from_) (i + 1) (i + 1) false 0 = r
+    intro hr
+    match r, hr with
+    | .ok (.ret _), _ => exact True.intro
+    | .ok (.brk _), _ => exact True.intro
+    | .nofuel, hr => exact hr
+
+/-- The complete account of a run of the translated function on a string of `len` bytes: a value;
+a panic only if `len = 2^63 - 1`; out of fuel only if `fuel < len`. -/
+def Spec {α : Type} (len : Int) (fuel : Nat) : Res α → Prop
+  | .ok _ => True
+  | .panic _ => len = 9223372036854775807
+  | .nofuel => (fuel : Int) < len
+
+theorem Spec.of_fine {α : Type} {len : Int} {b fuel : Nat} {r : Res α} (h : Fine b fuel r) (hb : (b : Int) < len) :
+    Spec len fuel r := by
+  cases r with
+  | ok v => exact True.intro
+  | panic m => exact h.elim
+  | nofuel => simp only [Fine] at h; simp only [Spec]; omega
+
+theorem Spec.ite {α : Type} {len : Int} {n : Nat} {c : Prop} [Decidable c] {x y : Res α}
+    (hx : c → Spec len n x) (hy : ¬ c → Spec len n y) : Spec len n (if c then x else y) := by
+  by_cases h : c
+  · rw [if_pos h]; exact hx h
+  · rw [if_neg h]; exact hy h
+
+theorem afterScan_spec (fuel : Nat) (atoi : List UInt8 → Int × Err) (from_ : List UInt8) (j : Int)
+    (hl : lenI from_ ≤ 9223372036854775807) (h0 : 0 < j) (h1 : j ≤ lenI from_) :
+    Spec (lenI from_) fuel (afterScan fuel atoi from_ j) := by
+  unfold afterScan
+  have hw : wrapI64 (j - 1) = j - 1 := wrapI64_of_in (by unfold InI64; omega)
+  have hsl : decide (0 ≤ (1 : Int) ∧ (1 : Int) ≤ j ∧ j ≤ lenI from_) = true := by simp; omega
+  simp only [hw, hsl, Bool.not_true, Bool.false_eq_true, ↓reduceIte]
+  refine Spec.ite (fun _ => True.intro) (fun _ => Spec.ite (fun _ => True.intro) (fun _ => ?_))
+  by_cases hmax : j = 9223372036854775807
+  · -- `i++` wraps to -2^63: only possible when the string has 2^63 - 1 bytes; then `from[i]` panics
+    have hlen : lenI from_ = 9223372036854775807 := by omega
+    have hw2 : wrapI64 (j + 1) = -9223372036854775808 := by
+      unfold wrapI64; rw [Int.bmod_def]; omega
+    have hge : ¬ (-9223372036854775808 ≥ lenI from_) := by omega
+    have hidx : decide (0 ≤ (-9223372036854775808 : Int) ∧ (-9223372036854775808 : Int) < lenI from_) = false := by
+      simp
+    simp only [hw2, hge, decide_false, Bool.false_eq_true, ↓reduceIte, body, hidx, Bool.not_false]
+    exact hlen
+  · have hw2 : wrapI64 (j + 1) = j + 1 := wrapI64_of_in (by unfold InI64; omega)
+    simp only [hw2]
+    refine Spec.ite (fun _ => True.intro) (fun hge => ?_)
+    have hge' : ¬ j + 1 ≥ lenI from_ := by simpa using hge
+    exact Spec.of_fine (body_fine fuel atoi from_ _ _ (j + 1) hl (by omega) (by omega)) (by omega)
+
+/-- The complete account of the translated `ParseISO8601Duration`, for every `atoi`, every string
+whose length is a Go `int`, and every fuel. -/
+theorem parseISO_code_spec (fuel : Nat) (atoi : List UInt8 → Int × Err) (from_ : List UInt8)
+    (hl : (from_.length : Int) ≤ 9223372036854775807) :
+    Spec (from_.length : Int) fuel (ParseISO8601Duration fuel atoi from_) := by
+  rw [parseISO_code_unfold]
+  change lenI from_ ≤ 9223372036854775807 at hl
+  change Spec (lenI from_) fuel _
+  refine Spec.ite (fun _ => True.intro) (fun h2 => ?_)
+  have h2' : ¬ lenI from_ < 2 := by simpa using h2
+  have hidx : decide (0 ≤ (0 : Int) ∧ (0 : Int) < lenI from_) = true := by simp; omega
+  simp only [hidx, Bool.not_true, Bool.false_eq_true, ↓reduceIte]
+  refine Spec.ite (fun _ => ?_) (fun _ => ?_)
+  · have := loop2_scan atoi from_ hl 0 0 0 0 (-1) none fuel 0 (by omega) (by omega)
+    revert this
+    generalize ParseISO8601Duration_loop2 fuel atoi from_ 0 0 0 0 (-1) none (lenI from_) 0 = r
+    intro hr
+    match r, hr with
+    | .ok (.brk j), hr =>
+      simp only [Scan] at hr
+      exact afterScan_spec fuel atoi from_ j hl hr.1 hr.2
+    | .nofuel, hr =>
+      simp only [Scan] at hr
+      show (fuel : Int) < lenI from_
+      omega
+  · exact Spec.of_fine (body_fine fuel atoi from_ _ _ 0 hl (by omega) (by omega)) (by omega)
+
+/-- **C07 on the translated source text, 1: no input can crash the parser.** For every `atoi`
+whatsoever, every string shorter than 2^63 - 1 bytes and every fuel, the translated
+`ParseISO8601Duration` does not panic: every `from[i]`, `from[1:i]`, `from[start:i]` is in bounds.
+(At exactly 2^63 - 1 bytes the statement is false: `parseISO_code_panics_at_maxInt`.) -/
+theorem parseISO_code_never_panics (fuel : Nat) (atoi : List UInt8 → Int × Err) (from_ : List UInt8)
+    (hl : (from_.length : Int) < 9223372036854775807) :
+    ∀ msg, ParseISO8601Duration fuel atoi from_ ≠ .panic msg := by
+  intro msg h
+  have := parseISO_code_spec fuel atoi from_ (by omega)
+  rw [h] at this
+  simp only [Spec] at this
+  omega
+
+/-- **2: no input can hang it.** `len(from)` units of fuel (one per loop iteration) always suffice;
+this is the least bound (`parseISO_code_fuel_tight`). -/
+theorem parseISO_code_terminates (fuel : Nat) (atoi : List UInt8 → Int × Err) (from_ : List UInt8)
+    (hl : (from_.length : Int) ≤ 9223372036854775807) (hf : from_.length ≤ fuel) :
+    ParseISO8601Duration fuel atoi from_ ≠ .nofuel := by
+  intro h
+  have := parseISO_code_spec fuel atoi from_ hl
+  rw [h] at this
+  simp only [Spec] at this
+  omega
+
+/-- The bound in the form it was asked for. -/
+theorem parseISO_code_terminates_add2 (fuel : Nat) (atoi : List UInt8 → Int × Err) (from_ : List UInt8)
+    (hl : (from_.length : Int) ≤ 9223372036854775807) (hf : from_.length + 2 ≤ fuel) :
+    ParseISO8601Duration fuel atoi from_ ≠ .nofuel :=
+  parseISO_code_terminates fuel atoi from_ hl (by omega)
+
+/-- Hence: with that fuel the translated function returns a value. -/
+theorem parseISO_code_total (fuel : Nat) (atoi : List UInt8 → Int × Err) (from_ : List UInt8)
+    (hl : (from_.length : Int) < 9223372036854775807) (hf : from_.length ≤ fuel) :
+    ∃ v, ParseISO8601Duration fuel atoi from_ = .ok v := by
+  have h1 := parseISO_code_never_panics fuel atoi from_ hl
+  have h2 := parseISO_code_terminates fuel atoi from_ (by omega) hf
+  cases h : ParseISO8601Duration fuel atoi from_ with
+  | ok v => exact ⟨v, rfl⟩
+  | panic m => exact absurd h (h1 m)
+  | nofuel => exact absurd h h2
+
+/-! ### Non-vacuity: the translated function, evaluated -/
+
+/-- `strconv.Atoi` for the evaluations: the model's `Kit.NoPanic.atoi` (optional sign, decimal
+digits, int64 range) in the shape the translated code expects. -/
+def atoiGo (s : List UInt8) : Int × Err :=
+  match Kit.NoPanic.atoi s with
+  | some v => (v, none)
+  | none => (0, some "strconv.Atoi")
+
+-- instance search gives up on the 6-tuple in one go; build it up
+local instance instDecEqR2 : DecidableEq (Int × Err) := inferInstance
+local instance instDecEqR3 : DecidableEq (Int × Int × Err) := inferInstance
+local instance instDecEqR4 : DecidableEq (Int × Int × Int × Err) := inferInstance
+local instance instDecEqR5 : DecidableEq (Int × Int × Int × Int × Err) := inferInstance
+local instance instDecEqR6 : DecidableEq (Int × Int × Int × Int × Int × Err) := inferInstance
+
+/-- "R5/P1Y2M3DT4H5M6S" -/
+def sample : List UInt8 := [82, 53, 47, 80, 49, 89, 50, 77, 51, 68, 84, 52, 72, 53, 77, 54, 83]
+
+example : ParseISO8601Duration sample.length atoiGo sample = .ok (1, 2, 3, 14706000000000, 5, none) := by
+  decide +kernel
+
+/-- malformed: "P1YT" then 'Y' in the time part ("P1YT2Y") -/
+example : ParseISO8601Duration 6 atoiGo [80, 49, 89, 84, 50, 89] = .ok (1, 0, 0, 0, -1, some "errors.New") := by
+  decide +kernel
+
+/-- malformed: "R/P1Y" (no repetition count) and "RX/P1Y" (count not a number) -/
+example : ParseISO8601Duration 5 atoiGo [82, 47, 80, 49, 89] = .ok (0, 0, 0, 0, -1, some "errors.New") := by
+  decide +kernel
+example : ParseISO8601Duration 6 atoiGo [82, 88, 47, 80, 49, 89] = .ok (0, 0, 0, 0, 0, some "errors.New") := by
+  decide +kernel
+
+/-- One unit of fuel less than the length is not enough (both loops): the bound is the least. -/
+example : ParseISO8601Duration (sample.length - 1) atoiGo [80, 49, 50, 51, 52, 53, 54, 55, 56, 57, 48, 49, 50, 51, 52, 53, 89]
+    = .nofuel := by decide +kernel
+example : ParseISO8601Duration 3 atoiGo [82, 49, 50, 51] = .nofuel := by decide +kernel
+
+/-! ### The boundary: a string of exactly 2^63 - 1 bytes
+
+`len(from) = math.MaxInt` is the one length excluded by `parseISO_code_never_panics`, and it has to
+be: on "R" followed by 2^63 - 2 bytes none of which is '/', the scan loop stops at `i = l`, the
+count `from[1:l]` is handed to `Atoi`, and if that succeeds `i++` wraps to -2^63, `i >= l` is false
+and `from[i]` panics. (No such string fits in memory; the Go code has the same behaviour.) -/
+
+/-- The scan loop on a string without '/' after position `i` runs to the end. -/
+theorem loop2_exact (atoi : List UInt8 → Int × Err) (from_ : List UInt8)
+    (hl : lenI from_ ≤ 9223372036854775807) (years months days duration rep : Int) (err : Err) :
+    ∀ (fuel : Nat) (i : Int), 0 ≤ i → i < lenI from_ →
+      (∀ k, i < k → k < lenI from_ → idx from_ k ≠ 47) → (lenI from_ - i).toNat ≤ fuel →
+      ParseISO8601Duration_loop2 fuel atoi from_ years months days duration rep err (lenI from_) i
+        = .ok (.brk (lenI from_)) := by
+  intro fuel
+  induction fuel with
+  | zero => intro i h0 h1 _ hf; omega
+  | succ n ih =>
+    intro i h0 h1 hk hf
+    unfold ParseISO8601Duration_loop2
+    have hw : wrapI64 (i + 1) = i + 1 := wrapI64_of_in (by unfold InI64; omega)
+    simp only [hw]
+    by_cases he : i + 1 = lenI from_
+    · have he' : (i + 1 == lenI from_) = true := by simpa using he
+      simp only [he', Bool.not_true, Bool.not_false, Bool.true_or, Bool.false_eq_true, ↓reduceIte]
+      rw [he]
+    · have he' : (i + 1 == lenI from_) = false := by simpa using he
+      have hidx : decide (0 ≤ i + 1 ∧ i + 1 < lenI from_) = true := by simp; omega
+      have h47 : (idx from_ (i + 1) == 47) = false := by
+        simpa using hk (i + 1) (by omega) (by omega)
+      simp only [he', hidx, h47, Bool.not_true, Bool.not_false, Bool.or_true, Bool.or_false,
+        Bool.false_eq_true, ↓reduceIte]
+      exact ih (i + 1) (by omega) (by omega) (fun k hk1 hk2 => hk k (by omega) hk2) (by omega)
+
+/-- The panic at `len(from) = 2^63 - 1`, for any such string and any `atoi` that accepts the count. -/
+theorem parseISO_code_panics_at_maxInt (fuel : Nat) (atoi : List UInt8 → Int × Err) (from_ : List UInt8)
+    (hlen : (from_.length : Int) = 9223372036854775807) (hR : idx from_ 0 = 82)
+    (hno : ∀ k, 0 < k → k < (from_.length : Int) → idx from_ k ≠ 47)
+    (hatoi : (atoi (slice from_ 1 (from_.length : Int))).2 = none) (hf : from_.length ≤ fuel) :
+    ParseISO8601Duration fuel atoi from_ = .panic "index out of range: from[i]" := by
+  rw [parseISO_code_unfold]
+  change lenI from_ = 9223372036854775807 at hlen
+  change ∀ k, 0 < k → k < lenI from_ → idx from_ k ≠ 47 at hno
+  change (atoi (slice from_ 1 (lenI from_))).2 = none at hatoi
+  have hscan := loop2_exact atoi from_ (by omega) 0 0 0 0 (-1) none fuel 0 (by omega) (by omega) hno
+    (by unfold lenI at *; omega)
+  have h2 : ¬ lenI from_ < 2 := by omega
+  have hidx : decide (0 ≤ (0 : Int) ∧ (0 : Int) < lenI from_) = true := by simp; omega
+  have hR' : (idx from_ 0 == 82) = true := by simp [hR]
+  simp only [h2, decide_false, hidx, hR', hscan, Bool.not_true, Bool.false_eq_true, ↓reduceIte]
+  unfold afterScan
+  have hatoi' : ((atoi (slice from_ 1 (lenI from_))).2 != none) = false := by simp [hatoi]
+  have e1 : wrapI64 (9223372036854775807 - 1) = 9223372036854775806 := by decide
+  have e2 : wrapI64 (9223372036854775807 + 1) = -9223372036854775808 := by decide
+  simp only [hlen] at hatoi' ⊢
+  simp only [hatoi', e1, e2, body, hlen]
+  simp
 
 end Kit.Time.Code
